@@ -226,7 +226,8 @@ def oracle_child(payload):
             ds = abs(a["size2"] / b["size2"] - 1)
             tol_s = 0.015 if pix else 0.08
             if (not pix or max(ns) <= 2.5) and not ds <= tol_s:
-                fails.append(("size", f"squared size {a['size2']:.4f} vs reference {b['size2']:.4f} ({ds:.3%}, tolerance {tol_s:.1%})"))
+                emax_s = max(v for k, v in P.items() if k.startswith("ellip"))
+                fails.append(("size-flattest-high-n" if (not pix and max(ns) >= 3.5 and emax_s >= 0.75) else "size", f"squared size {a['size2']:.4f} vs reference {b['size2']:.4f} ({ds:.3%}, tolerance {tol_s:.1%})"))
             # absolute convention check on the reference-independent quantities: PA equals theta mod π, centre equals (xc, yc)
             single = t in ("sersic", "exp", "dev")
             if single and np.asarray(sc["psf"]).shape == (1, 1):
